@@ -1,9 +1,11 @@
 """Print the prompt for a behaviour-preserving-refactor sub-agent: property texts + scratch worktree only (nothing from /verif)."""
-import json, sys
+import json, os, sys
 grp = sys.argv[1]
 pids = sys.argv[2:]
 props = {json.loads(l)["id"]: json.loads(l) for l in open("/verif/properties.jsonl")}
 WT, OUT = f"/tmp/wtT/{grp}", f"/tmp/twinT/{grp}"
+EXTRA = os.environ.get("TWIN_EXTRA", "")
+EXTRA = (EXTRA + "\n") if EXTRA else ""
 ptxt = "\n".join(f"  [{p}] {props[p]['title']}: {props[p]['statement']}\n      (quantified over: {props[p]['quantifier']['text']}; code: {', '.join(props[p]['anchors']['files'])})" for p in pids)
 print(f"""You are helping to evaluate a verification effort for the open-source Python/C++ library FormaK (buckbaskin/formak): a library that turns sympy state/sensor models into Python and C++ Extended Kalman Filter code (with common-subexpression elimination, innovation filtering and a "managed filter" runtime).
 
@@ -40,4 +42,4 @@ Environment facts you need (sandbox, no network):
   * SklearnEKFAdapter.transform / mahalanobis / score / fit additionally call float() on a 1x1 array, which numpy 2 rejects; a script that needs them must also install, after importing formak.python, a module-level replacement `python.float` (a small class whose __new__ unwraps size-1 arrays and that still works with isinstance(x, float) via __instancecheck__ on its metaclass) -- library code itself must not be changed for this.
   * The C++ generator's entry points cpp.compile / cpp.compile_ekf parse sys.argv (--header, --source, --namespace); in a script either set sys.argv or construct cpp.Model / cpp.ExtendedKalmanFilter directly and call cpp.header_from_ast / cpp.source_from_ast(generator=...) (run with cwd = repo root).
   * g++ and clang++ (C++20) are installed; Eigen, gtest and Bazel are not.
-Report back briefly: for each change, the file/function touched, the style of change, and why it is equivalent.""")
+{EXTRA}Report back briefly: for each change, the file/function touched, the style of change, and why it is equivalent.""")
